@@ -34,6 +34,7 @@ CONSTANTS
   PongPolicy,    \* "cancel_safe" (required) | "inline" (reply and packet live only in the dropped future)
   MaxErr, MaxPending, MaxCancel, MaxTimeout,
   MaxWrites, WLens,
+  MaxQueued,     \* ws: messages the relay may have in flight (model bound)
   KeepHist,      \* FALSE in trace validation: the script of steps is not recorded
   FrameOK(_, _)  \* which (length, class) pairs the peer may produce (TRUE: any)
 
@@ -115,7 +116,7 @@ PeerDgram(fs) ==
 
 \* ws: the relay packs the next k bytes of its byte stream into one binary message
 PeerWsPack(k) ==
-  /\ IsWs /\ ~eof /\ k \in 1..Len(wsq) /\ Len(net) < 2      \* bounded in-flight queue (model bound)
+  /\ IsWs /\ ~eof /\ k \in 1..Len(wsq) /\ Len(net) < MaxQueued
   /\ net' = Append(net, [kind |-> "binary", toks |-> SubSeq(wsq, 1, k)])
   /\ wsq' = SubSeq(wsq, k + 1, Len(wsq)) /\ packed' = packed + k
   /\ Log(H("wsmsg", k, "binary"))
@@ -124,7 +125,7 @@ PeerWsPack(k) ==
 
 \* ws: a message that is not binary (text, ping, pong) or an empty binary message
 PeerWsOther(kind) ==
-  /\ IsWs /\ ~eof /\ Len(net) < 2
+  /\ IsWs /\ ~eof /\ Len(net) < MaxQueued
   /\ net' = Append(net, [kind |-> kind, toks |-> <<>>])
   /\ Log(H("wsmsg", 0, kind))
   /\ UNCHANGED <<cfg, sent, wsq, packed, eof, abuf, rbuf, roff, pc, pending, pongleft, wcur, wleft, wlen, nwrites, wafter,
@@ -367,22 +368,25 @@ WritePending ==
 ----------------------------------------------------------------------------
 Frame(n, c) == [len |-> n, cls |-> c]
 
+\* every disjunct of Next is a named action (TLC reports coverage per name)
+DoPeerSend   == \E n \in Lens, c \in Classes : FrameOK(n, c) /\ PeerSend(n, c)
+DoPeerDgram1 == \E n \in Lens, c \in Classes : FrameOK(n, c) /\ PeerDgram(<<Frame(n, c)>>)
+DoPeerDgram2 == \E n1, n2 \in Lens, c1, c2 \in Classes :
+                   FrameOK(n1, c1) /\ FrameOK(n2, c2) /\ PeerDgram(<<Frame(n1, c1), Frame(n2, c2)>>)
+DoPeerWsPack == \E k \in 1..(MaxFrames * 12) : PeerWsPack(k)
+DoPeerWsOther == \E kind \in {"text", "ping", "empty"} : PeerWsOther(kind)
+DoFillStream == \E k \in 1..(Cap + 1) : FillStream(k)
+DoPongWrite  == \E k \in 1..4 : PongWrite(k)
+DoWriteCall  == \E n \in WLens : WriteCall(n)
+DoWriteAccept == \E k \in 1..12 : WriteAccept(k)
+
 Next ==
-  \/ \E n \in Lens, c \in Classes : FrameOK(n, c) /\ PeerSend(n, c)
-  \/ \E n \in Lens, c \in Classes : FrameOK(n, c) /\ PeerDgram(<<Frame(n, c)>>)
-  \/ \E n1, n2 \in Lens, c1, c2 \in Classes : FrameOK(n1, c1) /\ FrameOK(n2, c2) /\ PeerDgram(<<Frame(n1, c1), Frame(n2, c2)>>)
-  \/ \E k \in 1..(MaxFrames * 12) : PeerWsPack(k)
-  \/ \E kind \in {"text", "ping", "empty"} : PeerWsOther(kind)
-  \/ PeerClose
+  \/ DoPeerSend \/ DoPeerDgram1 \/ DoPeerDgram2 \/ DoPeerWsPack \/ DoPeerWsOther \/ PeerClose
   \/ ReadCall \/ TryDecode
-  \/ \E k \in 1..(Cap + 1) : FillStream(k)
-  \/ FillUdpBuffered \/ FillUdpDirect \/ FillWs
+  \/ DoFillStream \/ FillUdpBuffered \/ FillUdpDirect \/ FillWs
   \/ FillEof \/ FillErr \/ FillPending \/ FillTimeout
-  \/ \E k \in 1..4 : PongWrite(k)
-  \/ PongPending \/ PongFinish \/ Cancel
-  \/ \E n \in WLens : WriteCall(n)
-  \/ \E k \in 1..12 : WriteAccept(k)
-  \/ WritePending
+  \/ DoPongWrite \/ PongPending \/ PongFinish \/ Cancel
+  \/ DoWriteCall \/ DoWriteAccept \/ WritePending
 
 Spec == Init /\ [][Next]_vars
 
